@@ -2,7 +2,7 @@
    This file contains only statements closed by [exact] and their assumptions. *)
 From Coq Require Import List ZArith Bool.
 Import ListNotations.
-From Verif Require Import Val CounterSyntax FormatParse ClassCounters Counters NumberingSpec CountersProofs FormatParseProofs NumberingProofs.
+From Verif Require Import Val CounterSyntax FormatParse ClassCounters Counters NumberingSpec CountersProofs FormatParseProofs NumberingProofs ItemsProofs.
 Local Open Scope Z_scope.
 
 (* M1: stepping a counter resets every counter declared within it, transitively -- for every store (a dict: unique keys) whose
@@ -123,6 +123,24 @@ Theorem C08_enumerate_items_count :
     exists ms, number_doc cls depth (map lev_event ls) = Ok (ms, item_outs nums).
 Proof. exact enumerate_items_count. Qed.
 Print Assumptions C08_enumerate_items_count.
+
+(* M5, general form: in EVERY document of the strict domain -- all the constructs, in any order and nesting, itemize and
+   enumerate mixed, sections, equations, theorems, \setcounter on other counters ... in between -- that does not operate on
+   enumi..enumiv explicitly, the item numbers plasTeX prints are, in document order, what the list structure alone prescribes
+   ([expected_items]: one running count per open list, a list opens at 0): the k-th item of every enumerate carries k, and
+   every nested list starts again from 1.  (Items of other lists: no claim on their number.) *)
+Theorem C08_enumerate_items_general :
+  forall cls depth es ss souts, spec_doc true cls depth es = Some (ss, souts) -> forallb no_enum_op es = true ->
+    exists ms mo, number_doc cls depth es = Ok (ms, mo) /\ Forall2 item_ok (expected_items es []) (item_refs mo).
+Proof. exact enumerate_items_general. Qed.
+Print Assumptions C08_enumerate_items_general.
+
+Example C08_items_nonvacuous :
+  let doc := [ESec n_section false; EBeginList true; EItem; EEquation; EItem; EBeginList false; EItem; EBeginList true; EItem;
+              ESet n_section 7; EItem; EEndList; EEndList; EItem; EEndList; ECaption false; EBeginList true; EItem; EEndList] in
+  (exists ss o, spec_doc true 0 2 doc = Some (ss, o)) /\ forallb no_enum_op doc = true /\
+  expected_items doc [] = [Some 1; Some 2; None; Some 1; Some 2; Some 3; Some 1].
+Proof. split; [vm_compute; eauto|]. split; vm_compute; reflexivity. Qed.
 
 (* The format strings of \the<counter> macros.  TheCounter.invoke's two regular-expression passes are part of the Model
    (Model/FormatParse.v: $name -> ${name}; then ${ name }, ${name.attr} references, everything else literal text).
